@@ -184,7 +184,14 @@ def check_process_interrupt(sc, out, facts, d) -> list:
             fate.setdefault(e[1], ('exit', idx, e[2]))
         elif e[0] == 'qput' and e[3] in ('result', 'exc'):
             fate.setdefault(e[2], ('queued', idx, e[3]))
-    took_signal = {e[1] for e in out.events if e[0] == 'sigint-child'}
+    took_signal = {e[1] for e in out.events if e[0] == 'sigint-child'} | {e[1] for e in out.events if e[0] == 'sigint-child-late'}
+    if took_signal and out.kind == 'raise' and out.exc['type'] == 'KeyboardInterrupt':
+        # a task process took the terminal's SIGINT with Python's default handler (it was neither blocking nor
+        # ignoring it at that instant): its task is interrupted instead of being allowed to finish
+        w0 = sorted(took_signal)[0]
+        ev0 = next(e for e in out.events if e[0] in ('sigint-child', 'sigint-child-late') and e[1] == w0)
+        vs.append(O.V('C14', 'worker-took-interrupt', f'task process {w0} was interrupted by the Ctrl-C (phase {ev0[2] if len(ev0) > 2 else "?"}): a task '
+                      f'that was executing is not allowed to finish', backend='process', start_method=backend))
     if second is None:
         # single interrupt: running workers are allowed to finish, results cached
         for w in started_before:
